@@ -2079,9 +2079,14 @@ public:
 
         for (size16_t i = 0; i < rule_count; ++i)
         {
-            s << i << "    ";
-            write_rule_diag_str(s, i);
-            s << "\n";
+            for (size16_t j = 0; j < rule_count; ++j)
+            {
+                if (gi.rule_infos[j].r_idx != i)
+                    continue;
+                s << i << "    ";
+                write_rule_diag_str(s, j);
+                s << "\n";
+            }
         }
         s << "\n";
 
